@@ -7,6 +7,7 @@ import (
 	"reflect"
 	"sort"
 	"strings"
+	"time"
 	"unsafe"
 
 	bexpr "github.com/hashicorp/go-bexpr"
@@ -82,6 +83,15 @@ func GenC11Input(seed uint64, idx int, tier string) C11Case {
 		c := NewC11Case([]byte(s), fmt.Sprintf("nested-%d", d), tier)
 		c.NoRef = d >= 9 || (tier != "thorough" && d >= 7)
 		return c
+	}
+	if idx < nSuite+20 {
+		// the parser gives up early and never reads a long tail: the step count
+		// is far below the input length
+		heads := []string{"foo == 1 ", "a in b ", "x is empty ", "(a == 1) ", "not a == 1 ", `"/p/q" != 2 `, "any xs as x { x == 1 } ", "a == 1 and b == 2 "}
+		tails := []string{"x", ")", "\"", "é", " a", "(", "== "}
+		h := heads[(idx-nSuite-12)%len(heads)]
+		t := strings.Repeat(tails[r.Intn(len(tails))], r.Range(600, 4000))
+		return NewC11Case([]byte(h+t), "long-unread-tail", tier)
 	}
 	g := &ExprGen{R: r.Fork(), Uniq: ""}
 	root := SyntheticRoot(r)
@@ -169,6 +179,8 @@ func evaluatorAST(ev *bexpr.Evaluator) (grammar.Expression, bool) {
 const (
 	apiParse = 0
 	apiEval  = 1
+	// refCap bounds the statements an unlimited reference parse may execute
+	refCap = uint64(600000000)
 )
 
 var apiNames = []string{"grammar.Parse+MaxExpressions", "bexpr.CreateEvaluator+WithMaxExpressions"}
@@ -282,17 +294,18 @@ type C11Violation struct {
 
 // C11Result is the per-input record.
 type C11Result struct {
-	Case        C11Case        `json:"case"`
-	S           uint64         `json:"unlimited_steps"`
-	Threshold   [2]uint64      `json:"threshold"`
-	Budgets     int            `json:"budgets_tried"`
-	Aborts      int            `json:"aborts_injected"`
-	Exhaustive  bool           `json:"exhaustive"`
-	ResidueChk  int            `json:"residue_checks"`
-	MaxRatio    float64        `json:"max_steps_per_budget_unit"`
-	Violations  []C11Violation `json:"violations,omitempty"`
-	UnlimitedOK bool           `json:"unlimited_ok"`
-	Nontrivial  bool           `json:"nontrivial"`
+	Case            C11Case        `json:"case"`
+	S               uint64         `json:"unlimited_steps"`
+	Threshold       [2]uint64      `json:"threshold"`
+	Budgets         int            `json:"budgets_tried"`
+	Aborts          int            `json:"aborts_injected"`
+	Exhaustive      bool           `json:"exhaustive"`
+	ResidueChk      int            `json:"residue_checks"`
+	MaxRatio        float64        `json:"max_steps_per_budget_unit"`
+	Violations      []C11Violation `json:"violations,omitempty"`
+	UnlimitedOK     bool           `json:"unlimited_ok"`
+	Nontrivial      bool           `json:"nontrivial"`
+	RefTooExpensive bool           `json:"unlimited_reference_too_expensive,omitempty"`
 }
 
 func budgetsFor(c *C11Case, S uint64, r *plan.Rand) (bs []uint64, exhaustive bool) {
@@ -436,7 +449,13 @@ func RunC11Case(env *C11Env, c C11Case, seed uint64) C11Result {
 			return o, be
 		}
 		unlimited := func() uint64 {
+			verifsim.SetHardCap(verifsim.Steps() + refCap)
 			o, entries, _ := limitedParse(api, in, 0, false, 0, env.EntrySites)
+			verifsim.SetHardCap(0)
+			if verifsim.CapHit() {
+				res.RefTooExpensive = true
+				return 0
+			}
 			ref[api] = o
 			if isBudgetErr(o) {
 				viol("zero-differs", 0, 0, "a parse without any budget failed with the max-expressions error", o)
@@ -490,6 +509,13 @@ func RunC11Case(env *C11Env, c C11Case, seed uint64) C11Result {
 		} else if !c.NoRef {
 			S = unlimited()
 		}
+		if res.RefTooExpensive {
+			// the unlimited parse of this input blows up (exponential nesting):
+			// nothing can be compared against it; such inputs are covered by the
+			// pathological family, which never parses without a budget
+			res.Violations = nil
+			return res
+		}
 		if api == apiParse {
 			res.S = S
 			res.UnlimitedOK = ref[apiParse].OK
@@ -515,6 +541,12 @@ func RunC11Case(env *C11Env, c C11Case, seed uint64) C11Result {
 			}
 			switch {
 			case budgetErr:
+				if !c.NoRef && len(env.EntrySites) > 0 && S > 0 && n > S {
+					// exactness: a budget that covers every step of the unlimited
+					// parse (S entries of parseExpr, one spare for a >= comparison)
+					// must not be refused
+					viol("budget-not-exact", n, S, fmt.Sprintf("budget %d fails with the max-expressions error although the unlimited parse takes only %d parser steps", n, S), o)
+				}
 				if haveOK {
 					viol("non-monotone", n, firstOK, fmt.Sprintf("budget %d fails although the smaller budget %d gave the unlimited result", n, firstOK), o)
 				}
@@ -570,14 +602,15 @@ func MinimizeC11(env *C11Env, c C11Case, v C11Violation, seed uint64) C11Case {
 	}
 	cur := c.Bytes()
 	budget := 400
-	in := plan.DDMinBytes(cur, func(cand []byte) bool {
-		if budget <= 0 {
+	stop := time.Now().Add(10 * time.Second)
+	in := plan.DDMinBytesStop(cur, func(cand []byte) bool {
+		if budget <= 0 || time.Now().After(stop) {
 			return false
 		}
 		budget--
 		ok, _ := fails(pin(cand))
 		return ok
-	})
+	}, func() bool { return budget <= 0 || time.Now().After(stop) })
 	out := pin(in)
 	if ok, w := fails(out); ok {
 		bs := []uint64{w.N}
